@@ -385,6 +385,8 @@ def plan(tier):
     k = 4 if tier == 'quick' else 16
     specs += [{'kind': 'soup', 'n': 6000 if tier == 'quick' else 60000, 'k': i} for i in range(k)]
     specs += [{'kind': 'mutants', 'n': 3000 if tier == 'quick' else 30000, 'k': i} for i in range(k)]
+    # coverage-guided fuzzing (atheris/libFuzzer) of the same oracle: an add-on, skipped (and counted) when atheris is not installed
+    specs += [{'kind': 'atheris', 'runs': 15000 if tier == 'quick' else 600000, 'k': i} for i in range(2 if tier == 'quick' else 12)]
     return specs
 
 
@@ -417,6 +419,9 @@ def run_shard(ctx, spec):
                           'continued' if '\\\n' in case['text'] else 'single-line', 'start=%d' % case['start']], {'text': case['text'], 'start': case['start']})
         ctx.exhaustive['@ at every gap x 8 statement kinds x 3 wrappings x token counts'] = True
         return
+    if spec['kind'] == 'atheris':
+        run_atheris(ctx, spec)
+        return
     if spec['kind'] == 'soup':
         def prop(seed, size):
             rnd = random.Random(seed)
@@ -441,6 +446,62 @@ def run_shard(ctx, spec):
         res = check_mutant(src, mutated, kind)
         ctx.case(digest(mutated), True, ['mutant:' + kind, 'mutant-result:' + str(res)], {'text': mutated[:500], 'mutation': kind})
     run_hypothesis(ctx, mprop, [st.integers(0, 2 ** 32 - 1), st.integers(1, 4)], spec['n'], salt=30 + spec['k'], rounds=5, minimise=minimise_text)
+
+
+def run_atheris(ctx, spec):
+    import json
+    import os
+    import shutil
+    import subprocess
+    import sys
+    import tempfile
+    root = os.path.dirname(os.path.dirname(os.path.dirname(os.path.abspath(__file__))))
+    try:
+        sys.path.insert(0, os.path.join(root, '.deps'))
+        import atheris  # noqa: F401  pylint: disable=unused-import,import-outside-toplevel
+    except Exception:  # pylint: disable=broad-except
+        ctx.discard('atheris-not-installed')
+        return
+    work = tempfile.mkdtemp(prefix='fuzz_c06_', dir=os.path.join(root, 'work') if os.path.isdir(os.path.join(root, 'work')) else None)
+    try:
+        corpus = os.path.join(work, 'corpus')
+        os.makedirs(corpus)
+        rnd = random.Random(ctx.seed * 7 + spec['k'])
+        seeds = ['', "xx = 1\n", "if xx:\n    yy = 'a'\nelif zz:\n    continue\nelse:\nendif\n", "function ff(aa, bb...):\n    return aa + 1\nendfunction\n",
+                 "for vv, ii in arrayNew(1, 2):\n    systemLog(vv) \\\n      \nendfor\n", "lbl:\njumpif (xx < 2) lbl\ninclude 'a.bare'\ninclude <b.bare>\n"]
+        for _ in range(4):
+            seeds.append(gen_program(rnd, 2)[1][:600])
+        for i, text in enumerate(seeds):
+            with open(os.path.join(corpus, 'seed%d' % i), 'w', encoding='utf-8') as fh:
+                fh.write(text)
+        out = os.path.join(work, 'violation.json')
+        env = dict(os.environ, PYTHONPATH=os.pathsep.join([os.path.dirname(os.path.dirname(impl.bs.module.__file__)), root, os.path.join(root, '.deps')]))
+        cmd = [sys.executable, '-m', 'pbt.fuzz_parser', out, '-runs=%d' % spec['runs'], '-seed=%d' % (ctx.seed * 100 + spec['k'] + 1), '-max_len=600', '-timeout=20',
+               '-dict=' + os.path.join(root, 'tools', 'bare.dict'), '-print_final_stats=1', corpus]
+        try:
+            r = subprocess.run(cmd, capture_output=True, text=True, env=env, cwd=root, timeout=3000)
+        except subprocess.TimeoutExpired:
+            ctx.discard('atheris-wall-clock')
+            return
+        execs = 0
+        for line in r.stderr.splitlines():
+            if line.startswith('stat::number_of_executed_units:'):
+                execs = int(line.split(':')[-1])
+        ncorpus = len(os.listdir(corpus))
+        if r.returncode == 77 and os.path.exists(out):
+            with open(out, encoding='utf-8') as fh:
+                data = json.load(fh)
+            ctx.violation(Violation('[atheris] ' + data['what'], data['detail'], data['bucket']))
+        elif r.returncode != 0:
+            ctx.discard('atheris-exit-%d' % r.returncode)
+        ctx.evaluations += execs
+        ctx.classes['atheris-executions'] += execs
+        ctx.classes['atheris-corpus-size'] += ncorpus
+        for name in sorted(os.listdir(corpus))[:400]:
+            with open(os.path.join(corpus, name), 'rb') as fh:
+                ctx.nontrivial.add(digest(fh.read()))
+    finally:
+        shutil.rmtree(work, ignore_errors=True)
 
 
 def minimise_text(v):
